@@ -234,6 +234,23 @@ def maybe_reordering(rnd):
     return rnd.random() < .33
 
 
+def pub_manager(rnd):
+    """manager for the public operations: in a quarter of the inputs dynamic reordering is on with a threshold low enough to fire
+    inside the call; the operands are then referenced nodes (documented precondition of dd.bdd under dynamic reordering)"""
+    dyn = rnd.random() < .25
+    env = new_manager(rnd, held=4 if dyn else None)
+    env['dyn'] = dyn
+    if dyn:
+        b = env['b']
+        b.configure(reordering=True)
+        b._last_len = rnd.choice([1, 2, 3, max(1, len(b) // 2)])
+    return env
+
+
+def op_ref(env, rnd):
+    return held_ref(env, rnd) if env.get('dyn') else any_ref(env, rnd)
+
+
 def held_ref(env, rnd):
     """a referenced node (the documented precondition of dd.bdd operations under dynamic reordering)"""
     b = env['b']
@@ -247,8 +264,8 @@ def held_ref(env, rnd):
 @case('dd.bdd.BDD.ite')
 def c_pub_ite(seed):
     def build(rnd):
-        env = new_manager(rnd, reordering=False)
-        env.update(g=any_ref(env, rnd), u=any_ref(env, rnd), v=any_ref(env, rnd))
+        env = pub_manager(rnd)
+        env.update(g=op_ref(env, rnd), u=op_ref(env, rnd), v=op_ref(env, rnd))
         return env
     return Case('dd.bdd.BDD.ite', seed, build, lambda e: e['b'].ite(e['g'], e['u'], e['v']),
                 lambda e: dict(self=None, g=zint(e['g']), u=zint(e['u']), v=zint(e['v'])), lambda e: dict(call='ite', g=e['g'], u=e['u'], v=e['v']))
@@ -270,18 +287,18 @@ OPS2 = ['and', '/\\', '&', '&&', 'or', '\\/', '|', '||', '#', 'xor', '^', '=>', 
 @case('dd.bdd.BDD.apply')
 def c_apply(seed):
     def build(rnd):
-        env = new_manager(rnd, reordering=False)
+        env = pub_manager(rnd)
         kind = rnd.random()
         if kind < .15:
-            op, u, v, w = rnd.choice(['~', 'not', '!']), any_ref(env, rnd), None, None
+            op, u, v, w = rnd.choice(['~', 'not', '!']), op_ref(env, rnd), None, None
         elif kind < .75:
-            op, u, v, w = rnd.choice(OPS2), any_ref(env, rnd), any_ref(env, rnd), None
+            op, u, v, w = rnd.choice(OPS2), op_ref(env, rnd), op_ref(env, rnd), None
         elif kind < .9:
-            op, u, v, w = 'ite', any_ref(env, rnd), any_ref(env, rnd), any_ref(env, rnd)
+            op, u, v, w = 'ite', op_ref(env, rnd), op_ref(env, rnd), op_ref(env, rnd)
         else:
             # wrong arity / unknown operator
-            op, u, v, w = rnd.choice(['and', 'not', 'ite', 'nand']), any_ref(env, rnd), rnd.choice([None, any_ref(env, rnd)]), \
-                rnd.choice([None, any_ref(env, rnd)])
+            op, u, v, w = rnd.choice(['and', 'not', 'ite', 'nand']), op_ref(env, rnd), rnd.choice([None, op_ref(env, rnd)]), \
+                rnd.choice([None, op_ref(env, rnd)])
         env.update(op=op, u=u, v=v, w=w)
         return env
 
@@ -297,9 +314,9 @@ for _nm, _fa in (('forall', True), ('exist', False)):
         @case('dd.bdd.BDD.' + nm)
         def c_(seed):
             def build(rnd):
-                env = new_manager(rnd, reordering=False)
+                env = pub_manager(rnd)
                 names = env['names']
-                env.update(u=any_ref(env, rnd), qvars=set(rnd.sample(names, rnd.randint(0, len(names)))))
+                env.update(u=op_ref(env, rnd), qvars=set(rnd.sample(names, rnd.randint(0, len(names)))))
                 return env
             return Case('dd.bdd.BDD.' + nm, seed, build, lambda e: getattr(e['b'], nm)(e['qvars'], e['u']),
                         lambda e: dict(self=None, u=zint(e['u']), qvars=with_len(zset_name(e['qvars']), len(e['qvars']))),
@@ -310,9 +327,9 @@ for _nm, _fa in (('forall', True), ('exist', False)):
 @case('dd.bdd.BDD.quantify')
 def c_quantify(seed):
     def build(rnd):
-        env = new_manager(rnd, reordering=False)
+        env = pub_manager(rnd)
         names = env['names']
-        env.update(u=any_ref(env, rnd), qvars=set(rnd.sample(names, rnd.randint(0, len(names)))), forall=rnd.random() < .5)
+        env.update(u=op_ref(env, rnd), qvars=set(rnd.sample(names, rnd.randint(0, len(names)))), forall=rnd.random() < .5)
         return env
     return Case('dd.bdd.BDD.quantify', seed, build, lambda e: e['b'].quantify(e['u'], e['qvars'], e['forall']),
                 lambda e: dict(self=None, u=zint(e['u']), qvars=with_len(zset_name(e['qvars']), len(e['qvars'])), forall=BoolVal(e['forall'])),
@@ -322,10 +339,10 @@ def c_quantify(seed):
 @case('dd.bdd.BDD.cofactor')
 def c_cofactor(seed):
     def build(rnd):
-        env = new_manager(rnd, reordering=False)
+        env = pub_manager(rnd)
         names = env['names'] + (['zz'] if rnd.random() < .1 else [])
         vals = {nm: rnd.random() < .5 for nm in rnd.sample(names, rnd.randint(1, len(names)))}
-        env.update(u=any_ref(env, rnd), values=vals)
+        env.update(u=op_ref(env, rnd), values=vals)
         return env
     return Case('dd.bdd.BDD.cofactor', seed, build, lambda e: e['b'].cofactor(e['u'], e['values']),
                 lambda e: dict(self=None, u=zint(e['u']), values=zdict(e['values'], 'name', 'bool')),
@@ -337,12 +354,12 @@ def c_cofactor(seed):
 def _compose_case(contract, nsub):
     def c_(seed):
         def build(rnd):
-            env = new_manager(rnd, reordering=False)
+            env = pub_manager(rnd)
             names = env['names']
             k = 1 if nsub == 1 else rnd.randint(2, max(2, len(names)))
             k = min(k, len(names))
-            sub = {nm: any_ref(env, rnd) for nm in rnd.sample(names, k)}
-            env.update(f=any_ref(env, rnd), var_sub=sub)
+            sub = {nm: op_ref(env, rnd) for nm in rnd.sample(names, k)}
+            env.update(f=op_ref(env, rnd), var_sub=sub)
             return env
         return Case(contract, seed, build, lambda e: e['b'].compose(e['f'], e['var_sub']),
                     lambda e: dict(self=None, f=zint(e['f']), var_sub=zdict(e['var_sub'], 'name', 'int')),
@@ -353,10 +370,10 @@ def _compose_case(contract, nsub):
 @case('dd.bdd.BDD.rename')
 def c_rename(seed):
     def build(rnd):
-        env = new_manager(rnd, reordering=False)
+        env = pub_manager(rnd)
         b = env['b']
         names = env['names']
-        u = any_ref(env, rnd)
+        u = op_ref(env, rnd)
         # a renaming accepted by the documented precondition: targets outside the support unless renamed themselves
         k = rnd.randint(0, len(names))
         src = rnd.sample(names, k)
@@ -371,10 +388,10 @@ def c_rename(seed):
 @case('dd.bdd.BDD.let:bool')
 def c_let_bool(seed):
     def build(rnd):
-        env = new_manager(rnd, reordering=False)
+        env = pub_manager(rnd)
         names = env['names']
         vals = {nm: rnd.random() < .5 for nm in rnd.sample(names, rnd.randint(0, len(names)))}
-        env.update(u=any_ref(env, rnd), d=vals)
+        env.update(u=op_ref(env, rnd), d=vals)
         return env
     return Case('dd.bdd.BDD.let:bool', seed, build, lambda e: e['b'].let(e['d'], e['u']),
                 lambda e: dict(self=None, u=zint(e['u']), definitions=zdict(e['d'], 'name', 'bool')), lambda e: dict(call='let', u=e['u'], d=e['d']))
@@ -383,10 +400,10 @@ def c_let_bool(seed):
 @case('dd.bdd.BDD.let:int')
 def c_let_int(seed):
     def build(rnd):
-        env = new_manager(rnd, reordering=False)
+        env = pub_manager(rnd)
         names = env['names']
-        sub = {nm: any_ref(env, rnd) for nm in rnd.sample(names, rnd.randint(0, len(names)))}
-        env.update(u=any_ref(env, rnd), d=sub)
+        sub = {nm: op_ref(env, rnd) for nm in rnd.sample(names, rnd.randint(0, len(names)))}
+        env.update(u=op_ref(env, rnd), d=sub)
         return env
     return Case('dd.bdd.BDD.let:int', seed, build, lambda e: e['b'].let(e['d'], e['u']),
                 lambda e: dict(self=None, u=zint(e['u']), definitions=zdict(e['d'], 'name', 'int')), lambda e: dict(call='let', u=e['u'], d=e['d']))
@@ -395,10 +412,10 @@ def c_let_int(seed):
 @case('dd.bdd.BDD.let:name')
 def c_let_name(seed):
     def build(rnd):
-        env = new_manager(rnd, reordering=False)
+        env = pub_manager(rnd)
         names = env['names']
         k = rnd.randint(0, len(names))
-        env.update(u=any_ref(env, rnd), d=dict(zip(rnd.sample(names, k), rnd.sample(names, k))))
+        env.update(u=op_ref(env, rnd), d=dict(zip(rnd.sample(names, k), rnd.sample(names, k))))
         return env
     return Case('dd.bdd.BDD.let:name', seed, build, lambda e: e['b'].let(e['d'], e['u']),
                 lambda e: dict(self=None, u=zint(e['u']), definitions=zdict(e['d'], 'name', 'name')), lambda e: dict(call='let', u=e['u'], d=e['d']))
